@@ -989,6 +989,12 @@ func (r *messageReader) Read(b []byte) (int, error) {
 				b = b[:c.readRemaining]
 			}
 			n, err := c.br.Read(b)
+			// A transport may return its last bytes together with io.EOF. The end
+			// of the stream is met by the next read then, like when it arrives on
+			// its own: the frame may be complete while the message is not.
+			if n > 0 && err == io.EOF {
+				err = nil
+			}
 			c.readErr = hideTempErr(err)
 			if c.isServer {
 				c.readMaskPos = maskBytes(c.readMaskKey, c.readMaskPos, b[:n])
